@@ -111,6 +111,59 @@ def judge_io_overwrite(shape, dt_first, dt_second, fmt, tmpdir):
     return out
 
 
+H5_GRIDS = [((2, 3), "f8", 0), ((3,), "i4", 2), ((2, 2, 3), "f4", 4)]
+H5_PATHS = ["/", "/p", "/q/r"]
+H5_OVERWRITE = [None, True, False]
+
+
+def h5_ops(tier):
+    return [(g, p, o) for g in range(len(H5_GRIDS) if tier == "thorough" else 2) for p in range(len(H5_PATHS)) for o in range(len(H5_OVERWRITE))]
+
+
+def _grid_equal(r, g):
+    rd, gd = np.asarray(r.data), np.asarray(g.data)
+    if rd.shape != gd.shape or not np.array_equal(rd, gd) or (rd.dtype.kind, rd.dtype.itemsize) != (gd.dtype.kind, gd.dtype.itemsize):
+        return False
+    if list(r.axis_names) != list(g.axis_names) or len(r.axes) != len(g.axes):
+        return False
+    return all(np.array_equal(np.asarray(a), np.asarray(b)) for a, b in zip(r.axes, g.axes))
+
+
+def judge_h5_history(seq, tmpdir):
+    """a sequence of writes of several grids to several PATHS of one HDF5 file (as data/make_nu2tau.py does), against a
+    reference model {path: grid}: a write that succeeds replaces that path's entry only, a write that raises changes
+    nothing; after EVERY step every stored path reads back equal to the model. overwrite=True must always succeed and a
+    plain write to a path that holds no grid must succeed."""
+    from nuspacesim.utils.grid import NssGrid
+
+    fn = os.path.join(tmpdir, "hist_" + "_".join("%d%d%d" % op for op in seq) + ".h5")
+    if os.path.exists(fn):
+        os.remove(fn)
+    model = {}
+    for step, (gi, pi, oi) in enumerate(seq):
+        g = mk_grid(*H5_GRIDS[gi][:2], H5_GRIDS[gi][2])
+        g = NssGrid(np.asarray(g.data) + np.asarray(step, dtype=g.data.dtype), g.axes, g.axis_names)
+        path, ow = H5_PATHS[pi], H5_OVERWRITE[oi]
+        kw = {} if ow is None else {"overwrite": ow}
+        must = ow is True or (ow is None and path not in model) or (ow is False and not model)
+        try:
+            g.write(fn, format="hdf5", path=path, **kw)
+            model[path] = g
+        except Exception as ex:
+            if must:
+                return [("io_history_write_accepted", f"step {step}: write(path={path!r}, overwrite={ow}) succeeds with {sorted(model)} stored", f"{type(ex).__name__}: {str(ex)[:80]}")]
+        for q, want in model.items():
+            try:
+                r = NssGrid.read(fn, format="hdf5", path=q)
+            except Exception as ex:
+                return [("io_history_read_back", f"after step {step} (write path={path!r}, overwrite={ow}): path {q!r} reads back", f"{type(ex).__name__}: {str(ex)[:80]}")]
+            if not _grid_equal(r, want):
+                return [("io_history_read_back", f"after step {step} (write path={path!r}, overwrite={ow}): path {q!r} equals what was last written there", "differs")]
+    if os.path.exists(fn):
+        os.remove(fn)
+    return []
+
+
 def slice_grid(which):
     from importlib.resources import files
 
@@ -315,6 +368,17 @@ def run(ctx):
                     ctx.tick(1, ("io_overwrite", len(shape), d1, d2, fmt))
                     for c, e, o in v:
                         ctx.violation(c, {"kind": "io_ow", "shape": list(shape), "d1": d1, "d2": d2, "fmt": fmt}, e, o)
+        # E2: every sequence of writes (grid x path x overwrite mode) up to the depth of the tier into ONE hdf5 file
+        depth = 2 if tier == "quick" else 3
+        ops = h5_ops(tier)
+        n_h = 0
+        for d in range(1, depth + 1):
+            for seq in itertools.product(ops, repeat=d):
+                n_h += 1
+                ctx.tick(1, ("h5_history", d, tuple(o[1:] for o in seq)))
+                for c, e, o in judge_h5_history(seq, tmp):
+                    ctx.violation(c, {"kind": "h5_hist", "seq": [list(x) for x in seq]}, e, o)
+        ctx.cov["hdf5_multi_path_write_histories"] = n_h
         ctx.cov["io_roundtrips"] = n_io
         ctx.sample({"kind": "io", "shape": [2, 3], "dtype": "i2", "names": [NAMES[2], NAMES[3]], "fmt": "fits"})
         # (b) slicing
@@ -422,6 +486,12 @@ def replay(case):
         tmp = tempfile.mkdtemp(prefix="nssmc_c18r_")
         try:
             return judge_io_overwrite(tuple(case["shape"]), case["d1"], case["d2"], case["fmt"], tmp)
+        finally:
+            shutil.rmtree(tmp, ignore_errors=True)
+    if k == "h5_hist":
+        tmp = tempfile.mkdtemp(prefix="nssmc_c18r_")
+        try:
+            return judge_h5_history([tuple(x) for x in case["seq"]], tmp)
         finally:
             shutil.rmtree(tmp, ignore_errors=True)
     if k == "slice":
